@@ -12,9 +12,17 @@ package main
 //@   property C05, C03, C18
 //@   loop 1
 //@     transition (=> (not (= format@iter "")) (= format format@iter))                                      [C05]
+//@   at call FileMatch#1
+//@     assert (= path@arg elem)                                                                             [C03]
+//@   at call Parser.OutputToWriter#1
+//@     assert (and (= (options.OutputPath opts) 0) (= format@arg format))                                   [C05]
+//@   at call Parser.OutputToFile#1
+//@     assert (and (not (= (options.OutputPath opts) 0)) (= format@arg format))                             [C05]
 //@   at call Parser.MergeFile#1
+//@     assert (= path@arg realPath)                                                                         [C03]
 //@     assert (options.SkipParent opts)                                                                     [C03]
 //@     assert (=> (not (= (options.RootPath opts) 0)) (called Parser.SetRoot#1))                            [C18]
 //@   at call Parser.MergeFileLayers#1
+//@     assert (= path@arg realPath)                                                                         [C03]
 //@     assert (not (options.SkipParent opts))                                                               [C03]
 //@     assert (=> (not (= (options.RootPath opts) 0)) (called Parser.SetRoot#1))                            [C18]
